@@ -2,6 +2,19 @@ import gfapy
 
 class Validation:
 
+  def _validate_record_type_specific_info(self):
+    for beg, end in [(self.s_beg, self.s_end), (self.f_beg, self.f_end)]:
+      if gfapy.posvalue(beg) > gfapy.posvalue(end):
+        raise gfapy.ValueError(
+          "Line: {}\n".format(str(self))+
+          "begin > end: {} > {}".format(gfapy.posvalue(beg),
+                                        gfapy.posvalue(end)))
+      if gfapy.islastpos(beg) and not gfapy.islastpos(end):
+        raise gfapy.FormatError(
+          "Line: {}\n".format(str(self))+
+          "Wrong use of $ marker\n"+
+          "{} >= {}$".format(gfapy.posvalue(end), gfapy.posvalue(beg)))
+
   def validate_positions(self):
     "Checks that positions suffixed by $ are the last position of segments"
     if self.is_connected():
